@@ -31,7 +31,7 @@ ASSUMPTIONS = [
 ]
 REQUIRED = {"all": ["set_calls", "clear_calls", "positions_zero_or_negative", "positions_beyond_end", "positions_non_sty",
                     "positions_duplicate", "distribution_checked", "kappa_after_checked", "kappa_after_with_cached_dmax",
-                    "clear_then_phosphosequence", "out_of_order_sites"]}
+                    "clear_then_phosphosequence", "out_of_order_sites", "long_ignored_position_histories"]}
 NWORDS = {"quick": 400, "thorough": 5000}
 
 
@@ -86,6 +86,20 @@ def judge(case, rep, S):
     cleared_since_pseq = False
     pseq_called = False
     all_sty = [i + 1 for i, c in enumerate(seq) if c in "STY"]
+    if case["o"] % 10 == 0:
+        # more than a hundred positions that must be ignored, on this one object, before the ordinary operations
+        rep.cnt("long_ignored_position_histories")
+        junk = [rng.choice([0, -1, -N, N + 1, N + 7, 3 * N, -2]) for _ in range(130)]
+        try:
+            for chunk in range(0, 130, 13):
+                obj.set_phosphosites(junk[chunk:chunk + 13])
+        except Exception as e:
+            rep.viol("set_raised", "set_phosphosites(out-of-range positions) raised %s: %s on %s after many ignored positions" % (type(e).__name__, e, seq),
+                     sig={"exception": type(e).__name__})
+            return
+        word.append(("set", "list", "130 out-of-range positions"))
+        if not check_state(rep, S, obj, seq, model, all_sty, word, rng):
+            return
     for step in range(rng.randint(1, 12)):
         r = rng.random()
         if r < 0.55:
